@@ -324,6 +324,133 @@ def r04_18(run, model):
     run.floor("parses of non-entry files in load_package", n, 1)
 
 
+def r04_23(run, model):
+    run.rule("R04.23", "the constraint solver's fixpoint terminates: the flag that keeps `solve` iterating is raised only where a constraint "
+                       "was discharged or replaced by a constraint of another kind - never in a block that puts the constraint it is looking "
+                       "at back on the pending list (a deferral that counts as progress is retried for ever)")
+    UNI = "crates/compiler/src/typer/unify.rs"
+    f = model.fn("solve", UNI, impl="Typer")
+    loops = [w for w in S.find(f.body, "While") if w["cond"]["k"] == "Path" and len(w["cond"]["segs"]) == 1]
+    if len(loops) != 1:
+        raise AnalysisIncomplete(f"solve: {len(loops)} loops driven by a flag found")
+    w = loops[0]
+    flag = w["cond"]["segs"][0]
+    par = S.Parents(w["body"])
+    top = next((m for m in S.find(w["body"], "Match")), None)
+    if top is None:
+        raise AnalysisIncomplete("solve: the match over constraints was not found")
+
+    def variant_of(node):
+        arm = next((a for a in reversed(list(par.ancestors(node))) if a["k"] == "Arm" and a in top["arms"]), None)
+        if arm is None:
+            return None
+        m_ = re.match(r"Constraint::(\w+)", S.norm_ws(run.facts.text(UNI, arm["pat"]["sp"])))
+        return m_.group(1) if m_ else None
+
+    def requeues(block, variant):
+        out = []
+        for c in S.walk(block):
+            if c["k"] == "MethodCall" and c["method"] in ("push", "push_back", "extend", "insert"):
+                for x in S.walk(c):
+                    if x["k"] in ("Struct", "Call") and len(x.get("segs") or S.callee_segs(x) or []) >= 2:
+                        segs = x.get("segs") or S.callee_segs(x)
+                        if segs[-2] == "Constraint" and segs[-1] == variant:
+                            out.append(c)
+        return out
+    n = 0
+    for a in S.walk(w["body"]):
+        if a["k"] != "Assign" or not S.is_path(a["left"], flag) or not (a["right"]["k"] == "Lit" and str(a["right"].get("value")).lower() == "true"):
+            continue
+        v = variant_of(a)
+        if v is None:
+            continue
+        n += 1
+        blk = next((b for b in par.ancestors(a) if b["k"] == "Block"), None)
+        rq = requeues(blk, v) if blk is not None else []
+        run.ob("R04.23", f"solve|{v}: progress #{n} is not claimed while the constraint is put back", not rq, site(UNI, a["sp"]),
+               f"`{flag} = true` in a block that " + (f"re-queues Constraint::{v} at line {rq[0]['sp'][0]}" if rq else f"does not re-queue Constraint::{v}"),
+               witness="let f = |x| Show::show(x); with f never applied: the receiver stays a type variable, the constraint is deferred and counted as "
+                       "progress; `check`/`run` spin at 100% CPU for ever")
+    run.floor("places where the solver claims progress", n, 3)
+
+
+def r04_24(run, model):
+    run.rule("R04.24", "the statement forms the expression compiler refuses never reach it: compile_cexpr and compile_cexpr_effect panic on "
+                       "the control-flow forms (their diverging arms); every match over an ANF expression in the Go back end that hands the "
+                       "matched value on to one of them - from a catch-all arm, a binding arm or an arm listing variants - has dealt with "
+                       "each refused form in an arm of its own first (the sibling lowerings return / assign / effect must agree on that set)")
+    GO = "crates/compiler/src/go/compile.rs"
+    enum = model.enum("CExpr")
+    allv = {v["name"] for v in enum["variants"]}
+    from rules.c01 import is_divergent
+
+    def variants_in(p_):
+        return {x for x in re.findall(r"CExpr::(\w+)", S.norm_ws(run.facts.text(GO, p_["sp"]))) if x in allv}
+    refused = {}
+    for name in ("compile_cexpr", "compile_cexpr_effect"):
+        f = model.fn(name, GO)
+        best = None
+        for m_ in S.find(f.body, "Match"):
+            vs = set().union(*[variants_in(a["pat"]) for a in m_["arms"]])
+            if len(vs) >= len(allv) - 1:
+                best = m_
+                break
+        if best is None:
+            raise AnalysisIncomplete(f"{name}: the match over CExpr was not found")
+        refused[name] = set().union(*([variants_in(a["pat"]) for a in best["arms"] if is_divergent(a["body"])] or [set()]))
+        if not refused[name]:
+            raise AnalysisIncomplete(f"{name}: no diverging arm found (the refused forms changed shape)")
+    run.anchor("forms refused", "; ".join(f"{k}: {sorted(v)}" for k, v in refused.items()))
+    conv = model.fn("tast_ty_to_go_type", "crates/compiler/src/go/goast.rs")
+    void_unreachable = "TVoid" not in run.facts.text("crates/compiler/src/go/goast.rs", conv.body["sp"])
+    callers = [h.name for h in model.fns(GO) if h.body is not None and h.name != "compile_aexpr" and any(True for _ in S.calls(h.body, "compile_aexpr"))]
+    for h in callers:
+        hf = model.fn(h, GO)
+        guarded = all(any(a["k"] == "Arm" and "TVoid" in S.norm_ws(run.facts.text(GO, a["pat"]["sp"])) for a in S.Parents(hf.body).ancestors(c))
+                      for c in S.calls(hf.body, "compile_aexpr"))
+        void_unreachable = void_unreachable and guarded
+    n = 0
+    for g in model.fns(GO):
+        if g.body is None or g.name in refused:
+            continue
+        for m_ in S.find(g.body, "Match"):
+            if not any(variants_in(a["pat"]) for a in m_["arms"]):
+                continue
+            covered = set()
+            for arm in m_["arms"]:
+                p_ = arm["pat"]
+                listed = variants_in(p_)
+                if listed:
+                    reaching = listed
+                elif p_["k"] in ("PIdent", "PWild"):
+                    reaching = allv - covered
+                else:
+                    reaching = set()
+                inner = [x for x in S.find(arm["body"], "Match") if any(variants_in(a["pat"]) for a in x["arms"])]
+                for c in S.walk(arm["body"]):
+                    if c["k"] != "Call" or S.callee_name(c) not in refused or any(S.span_contains(x["sp"], c["sp"]) for x in inner):
+                        continue
+                    # the whole matched value is handed on: the arm's binder, or the scrutinee itself
+                    whole = set(S.pat_bindings(p_)) if p_["k"] == "PIdent" else set()
+                    whole |= S.idents(m_["scrut"])
+                    if not any(S.idents(a) & whole for a in c["args"]):
+                        continue
+                    n += 1
+                    bad = sorted(reaching & refused[S.callee_name(c)])
+                    head = S.norm_ws(run.facts.text(GO, p_["sp"]))[:40]
+                    led = None
+                    if bad and g.name == "compile_aexpr" and void_unreachable:
+                        led = ("compile_aexpr lowers a body only for a function whose Go result type is TVoid; tast_ty_to_go_type never "
+                               "produces TVoid (checked on this tree: its body does not mention it), so no user function is lowered here")
+                    run.ob("R04.24", f"{g.name}|arm `{re.sub(r'[0-9]+', 'N', head)}` hands only accepted forms to {S.callee_name(c)}", not bad or led is not None, site(GO, c["sp"]),
+                           f"forms that reach this call: {len(reaching)}; refused among them: {bad or 'none'}" + (f"; ledger: {led}" if led else ""),
+                           witness="while a { while b { .. }; step() }: the inner loop, a statement followed by another, reaches compile_cexpr: "
+                                   "`EWhile should be lowered to goast::Stmt::Loop` - run and link exit with a panic on a well-typed program")
+                if arm.get("guard") is None:
+                    covered |= listed
+    run.floor("arms handing a matched ANF expression to the expression compiler", n, 6)
+
+
 def r04_22(run, model):
     run.rule("R04.22", "two looks at the same token agree: the grammar is written `if p.at(K) { f(p) }` with `assert!(p.at(K))` inside f "
                        "(R04.3), so Parser::peek / nth must not change their answer between two calls without an `advance` - a look that "
@@ -497,6 +624,8 @@ def run(run, model):
                  "fn vec_get(x: int32) -> int32 { x + 1 } plus a call: the typer accepts it, go::compile panics (unwrap on None)"), model)
     run.try_rule(r04_18, model)
     run.try_rule(r04_22, model)
+    run.try_rule(r04_23, model)
+    run.try_rule(r04_24, model)
     run.try_rule(r04_7, model)
     run.try_rule(r04_8, model)
     run.try_rule(r04_10, model, an)
